@@ -386,7 +386,10 @@ func (vlog *valueLog) rewrite(bucket uint32, fid uint32) error {
 		if diskVP.Bucket != bucket {
 			return nil
 		}
-		if diskVP.Fid > fid || (diskVP.Fid == fid && diskVP.Offset > ptr.Offset) {
+		// Only the record the LSM points at is live. A record at any other position is
+		// either stale (the pointer moved on) or was never acknowledged (its commit did
+		// not reach the WAL); re-inserting it would bring that value back.
+		if diskVP.Fid != fid || diskVP.Offset != ptr.Offset {
 			return nil
 		}
 
